@@ -27,7 +27,7 @@ inline void ct_fill_d(GBuf& b, uint64_t salt) { for (size_t i = 0; i < b.bytes /
 inline std::vector<CtorOp> ctor_ops(bool wide) {
   std::vector<CtorOp> ops;
   auto add = [&](const std::string& nm, std::function<uint64_t()> f) { ops.push_back({nm, f}); };
-  std::vector<uint64_t> modN = wide ? std::vector<uint64_t>{2, 4, 8, 16, 32, 64, 128, 256, 512, 1024, 2048, 4096, 16384} : std::vector<uint64_t>{64, 2048};
+  std::vector<uint64_t> modN = wide ? std::vector<uint64_t>{2, 4, 8, 16, 32, 64, 128, 256, 512, 1024, 2048, 4096, 16384} : std::vector<uint64_t>{8, 16, 32, 64, 2048};  // 8 / 16 / 32: half, equal and double the dimension of a module that is alive in the hidden-state explorations (object lifetimes must be independent)
   for (uint64_t N : modN) for (int t = 0; t < 2; ++t) {
     add(sfmt("new_module_info(%s,N=%llu) + dft + idft + delete_module_info", t ? "NTT120" : "FFT64", (unsigned long long)N), [N, t] {
       MODULE* m = new_module_info(N, t ? NTT120 : FFT64);
